@@ -118,11 +118,13 @@ def inject(p, cls, r):
         fn = r.choice([n for j, n in zip(flows, names) if j < i] or [None])
         if fn is None:
             return None
-        filt = {"nosuchstrat": "x"} if not earlier or r.random() < 0.5 else {earlier[0]["name"]: "nosuchstratum"}
+        _FILTER_VARIANT[0] += 1
+        variant = _FILTER_VARIANT[0] % 4 if earlier else 0            # every variant in turn
+        filt = {"nosuchstrat": "x"} if variant == 0 else {earlier[0]["name"]: "nosuchstratum"}
         dfilt = {}
-        if earlier and "nosuchstrat" not in filt and r.random() < 0.6:
+        if variant >= 2:
             dfilt = {earlier[0]["name"]: earlier[0]["strata"][0]}      # the same key on the other end, with a valid stratum
-            if r.random() < 0.5:
+            if variant == 3:
                 filt, dfilt = dfilt, filt                               # ... or the unknown stratum on the destination side
         ops[i].setdefault("fadj", []).append([fn, {s: {"mul": "2"} for s in ops[i]["strata"]}, filt, dfilt])
         return q, i + 1
@@ -309,6 +311,7 @@ def inject(p, cls, r):
 
 
 _AFTER_FINALIZE = [0]
+_FILTER_VARIANT = [0]
 CLASSES = ["end_before_start", "timestep_not_dividing", "timestep_not_dividing_long", "unknown_infectious", "unknown_population_compartment",
            "unknown_stratified_compartment", "unknown_flow_compartment", "output_for_unknown_compartment",
            "output_for_unknown_flow", "adjusting_unknown_flow", "unknown_filter_strata", "unknown_output_source",
